@@ -100,6 +100,16 @@ func UserFuns() []*Fun {
 		mk("pair", []*Ty{a, a}, TList(a), false, func(_ *Ty, x []Arg) *V {
 			return &V{T: TList(x[0].V.T), L: []*V{x[0].V, x[1].V}}
 		}),
+		// overload sets of one name and arity whose members differ in evaluation
+		// strategy: sel :: bool -> a -> a (lazy) | list[a] -> a -> a (strict);
+		// sel2 :: num -> a -> a (strict) | list[a] -> a -> a (lazy, forces the second operand only)
+		mk("sel", []*Ty{TBool, a}, a, true, func(_ *Ty, x []Arg) *V {
+			x[0].Force()
+			return x[1].Force()
+		}),
+		mk("sel", []*Ty{TList(a), a}, a, false, func(_ *Ty, x []Arg) *V { return x[1].V }),
+		mk("sel2", []*Ty{TNum, a}, a, false, func(_ *Ty, x []Arg) *V { return x[1].V }),
+		mk("sel2", []*Ty{TList(a), a}, a, true, func(_ *Ty, x []Arg) *V { return x[1].Force() }),
 	}
 }
 
